@@ -5,10 +5,10 @@
 (* or a goroutine left behind" - no verdict is computed.                        *)
 EXTENDS Integers, Sequences, TLC, Json
 CONSTANTS Lexemes, Contexts, MaxLen, Emit
-VARIABLES ctx, lexs
-Init == ctx \in Contexts /\ lexs = <<>>
-Extend(l) == Len(lexs) < MaxLen /\ lexs' = Append(lexs, l) /\ UNCHANGED ctx
+VARIABLES ctx, lexs, glue    \* glue: the lexemes follow each other without a blank (adjacency: "-" before a digit, "." before a name ...)
+Init == ctx \in Contexts /\ lexs = <<>> /\ glue \in BOOLEAN
+Extend(l) == Len(lexs) < MaxLen /\ lexs' = Append(lexs, l) /\ UNCHANGED <<ctx, glue>>
 Next == \E l \in Lexemes : Extend(l)
-Spec == Init /\ [][Next]_<<ctx, lexs>>
-EmitVec == Emit => PrintT(<<"VEC", ToJson([ctx |-> ctx, lexs |-> lexs])>>)
+Spec == Init /\ [][Next]_<<ctx, lexs, glue>>
+EmitVec == Emit => PrintT(<<"VEC", ToJson([ctx |-> ctx, lexs |-> lexs, glue |-> glue])>>)
 =============================================================================
